@@ -2,8 +2,9 @@
 (* Finite domain for model checking and for generating the cases of binding F.  *)
 (* Endpoints: up to Depth segments over the literals ELits and one variable,    *)
 (* each with and without a trailing "/", glob routes behind literal prefixes,   *)
-(* and the catch-all "/".  Route methods GET and ANY; requests GET and POST     *)
-(* (POST reaches only ANY routes - and "/" whatever its method).                *)
+(* and the catch-all "/".  Route methods GET and ANY (and "/" also for POST);   *)
+(* requests GET and POST (POST reaches only ANY routes - and "/" whatever its   *)
+(* method).                                                                     *)
 (* Request paths: up to PathDepth segments over PLits and the empty segment     *)
 (* (so "/", trailing slashes and doubled slashes all occur).                    *)
 EXTENDS RouteResolve
@@ -23,7 +24,7 @@ Bases     == SeqsUpTo(ELits \cup {MCVar}, Depth)
 GlobPre   == {<<>>} \cup SeqsUpTo(ELits, Depth - 1)
 Endpoints == Bases \cup {Append(b, "") : b \in Bases} \cup {Append(g, MCGlob) : g \in GlobPre} \cup {Root}
 
-MCUniverse == {[m |-> m, e |-> e] : m \in {"GET", AnyM}, e \in Endpoints}
+MCUniverse == {[m |-> m, e |-> e] : m \in {"GET", AnyM}, e \in Endpoints} \cup {[m |-> "POST", e |-> Root]}
 MCReqs     == {[m |-> m, p |-> p] : m \in {"GET", "POST"}, p \in SeqsUpTo(PLits \cup {""}, PathDepth)}
 
 \* byte order of the texts: "" < "a" < "b" < "c" < "{{g...}}" < "{{x}}"
